@@ -730,6 +730,20 @@ func (e *Env) callExpr(n *ECall) Val {
 			nv := Val{S: "Iface", T: "(mkI " + fc.B.Tag(v.Typ) + " " + fc.B.Box(v.Typ, v.T) + ")"}
 			nv.Fn = &FnVal{Special: "dyn", Data: []Val{v}}
 			return nv
+		case "slice1":
+			// one-element slice literal, built exactly as the engine builds call-site argument arrays
+			v := argv(0)
+			if v.Typ == nil {
+				return e.fail("slice1: untyped element")
+			}
+			return Val{S: "(Slice " + v.S + ")", T: "(mkS false 1 (store ((as const (Array Int " + v.S + ")) " + fc.zero(v.Typ) + ") 0 " + v.T + "))", Typ: types.NewSlice(v.Typ)}
+		case "marshalOf":
+			v := argv(0)
+			fn := "marshal_" + sanitize(v.S)
+			un := "unmarshal_" + sanitize(v.S)
+			fc.B.DeclFun(fn, []string{v.S}, "String")
+			fc.B.DeclFun(un, []string{"String"}, v.S)
+			return strVal("(" + fn + " " + v.T + ")")
 		case "strings1":
 			return Val{S: "(Slice String)", T: "(mkS false 1 (store ((as const (Array Int String)) \"\") 0 " + str(0) + "))", Typ: types.NewSlice(types.Typ[types.String])}
 		case "vget", "vhas":
@@ -881,6 +895,9 @@ func (e *Env) callExpr(n *ECall) Val {
 					if fn := fc.W.Funcs[shortPkg(p)+"."+sel.Name]; fn != nil {
 						return e.goCall(fn, nil, n.Args)
 					}
+					if fn := fc.W.globalFuncAlias(p, sel.Name); fn != nil {
+						return e.goCall(fn, nil, n.Args)
+					}
 					// external library function with a prelude model
 					if _, ok := staticPrelude[p+"."+sel.Name]; ok {
 						return e.preludeCall(p+"."+sel.Name, n.Args)
@@ -902,8 +919,12 @@ func (e *Env) callExpr(n *ECall) Val {
 			return e.goCall(fn, &recv, n.Args)
 		}
 		// value receiver method called on addressable value: try pointer type
-		if fn := fc.W.Prog.LookupMethod(types.NewPointer(recv.Typ), pkg, sel.Name); fn != nil && len(fn.Blocks) > 0 {
-			return e.fail("method %s needs pointer receiver", sel.Name)
+		if _, isIface := recv.Typ.Underlying().(*types.Interface); !isIface {
+			if _, isPtr := recv.Typ.Underlying().(*types.Pointer); !isPtr {
+				if fn := fc.W.Prog.LookupMethod(types.NewPointer(recv.Typ), pkg, sel.Name); fn != nil && len(fn.Blocks) > 0 {
+					return e.fail("method %s needs pointer receiver", sel.Name)
+				}
+			}
 		}
 		if impl := fc.closedImpl(recv.Typ); impl != nil {
 			if nt, ok := derefType(impl).(*types.Named); ok {
